@@ -158,6 +158,7 @@ enum Rel {
     Sign { inp: Id, out: Id, what: &'static str },
     Abs { inp: Id, out: Id },
     IsEq { a: Id, b: Id, out: Id },
+    IsZero { a: Id, out: Id },
 }
 
 /// What the first execution recorded for each op: which variables it used and produced.
@@ -473,6 +474,7 @@ pub fn run(
                 None | Some(EncSub::Honest) => honest,
                 Some(EncSub::Raw(h)) => fq_hex(h),
                 Some(EncSub::EncodeOf(src)) => esrc(src).vartime_compress_to_field(),
+                Some(EncSub::NegHonest) => -honest,
             }
         })));
     }
@@ -652,6 +654,7 @@ pub fn op_name(op: &R1Op) -> &'static str {
         R1Op::Select(..) => "conditionally_select",
         R1Op::ScalarMul(..) => "scalar_mul_le",
         R1Op::IsEq(..) => "is_eq",
+        R1Op::IsZero(_) => "is_zero",
         R1Op::EnforceEq(..) => "enforce_equal",
         R1Op::EnforceNe(..) => "enforce_not_equal",
         R1Op::CondEnforceEq(..) => "conditional_enforce_equal",
